@@ -1,3 +1,6 @@
+import GinjaxVerif.Properties.C01
 import GinjaxVerif.Properties.C02
+import GinjaxVerif.Properties.C03
+import GinjaxVerif.Properties.C04
 import GinjaxVerif.Properties.C16
 import GinjaxVerif.Properties.C19
